@@ -1046,6 +1046,28 @@ func c06TypedPool(p *Prog, fc *FuncCtx, ta *ast.TypeAssertExpr) (string, bool) {
 	want := info.TypeOf(ta.Type)
 	nNew, nPut := 0, 0
 	good := true
+	// checkNew: e is a function literal every return of which yields the asserted type
+	checkNew := func(pi *types.Info, e ast.Expr) {
+		lit, isLit := ast.Unparen(e).(*ast.FuncLit)
+		if !isLit {
+			good = false
+			return
+		}
+		nRet := 0
+		inspectNoLit(lit.Body, func(n ast.Node) bool {
+			if rs, isRet := n.(*ast.ReturnStmt); isRet {
+				nRet++
+				if len(rs.Results) != 1 || !types.Identical(pi.TypeOf(rs.Results[0]), want) {
+					good = false
+				}
+			}
+			return true
+		})
+		if nRet == 0 {
+			good = false
+		}
+		nNew++
+	}
 	checkLit := func(pi *types.Info, e ast.Expr) {
 		cl, isCL := ast.Unparen(e).(*ast.CompositeLit)
 		if !isCL {
@@ -1062,25 +1084,9 @@ func c06TypedPool(p *Prog, fc *FuncCtx, ta *ast.TypeAssertExpr) (string, bool) {
 			if k, isID := kv.Key.(*ast.Ident); !isID || k.Name != "New" {
 				continue
 			}
-			lit, isLit := ast.Unparen(kv.Value).(*ast.FuncLit)
-			if !isLit {
-				good = false
-				continue
-			}
 			found = true
-			nRet := 0
-			inspectNoLit(lit.Body, func(n ast.Node) bool {
-				if rs, isRet := n.(*ast.ReturnStmt); isRet {
-					nRet++
-					if len(rs.Results) != 1 || !types.Identical(pi.TypeOf(rs.Results[0]), want) {
-						good = false
-					}
-				}
-				return true
-			})
-			if nRet == 0 {
-				good = false
-			}
+			checkNew(pi, kv.Value)
+			nNew-- // counted once per initialisation below
 		}
 		if !found {
 			good = false
@@ -1107,6 +1113,10 @@ func c06TypedPool(p *Prog, fc *FuncCtx, ta *ast.TypeAssertExpr) (string, bool) {
 							} else {
 								good = false
 							}
+						}
+						// pool.New = func() any { … }
+						if sel, isSel := ast.Unparen(l).(*ast.SelectorExpr); isSel && sel.Sel.Name == "New" && fieldOrVar(pi, sel.X) == pool && len(x.Rhs) == len(x.Lhs) {
+							checkNew(pi, x.Rhs[i])
 						}
 					}
 				case *ast.ValueSpec:
